@@ -204,7 +204,8 @@ def setup_profile():
             if rt not in ["absolute", "relative"]:
                 print("Please choose 'absolute' or 'relative'.")
                 continue
-            pf["range_type"] = rt
+            # the fitting routines call the relative range type "relative cp"
+            pf["range_type"] = "relative cp" if rt == "relative" else rt
         break
 
     print("\nSelect fitting interval:")
@@ -213,7 +214,7 @@ def setup_profile():
     if left:
         ival[0] = float(left)
     right = input("right [µm] (currently '{}'): ".format(ival[1]))
-    if left:
+    if right:
         ival[1] = float(right)
     pf["range_x"] = list(ival*1e-6)
 
